@@ -11,7 +11,7 @@ use crate::common::{codec_of, open, write_file};
 use crate::files::{count_blocks, Population};
 use crate::query::{check_query, scan_queries, CursorMode, Query};
 
-/// One file: write, open, metadata, six scans. Ok(blocks) or Err((kind, message)).
+/// One file: write, open, metadata, the two scans from fresh cursors. Ok(blocks) or Err((kind, message)).
 /// A sink that only hands bytes on when it is flushed (like a BufWriter): what was written but
 /// never flushed is lost.
 #[derive(Default)]
@@ -177,7 +177,7 @@ pub fn run(tier: Tier) -> i32 {
     let fixed_from = pop.len() - pop.fixed.len();
     let acc = par_for(pop.len(), 32, &deadline, |i, acc| check_one(&pop.get(i), i >= fixed_from || i % 64 == 0, acc));
     rep.acc = acc;
-    rep.set("rule", json!("E2: every file of the population (all entry-shape sequences up to n x the full 252-layout grid (9 block sizes x 4 intervals x 7 index depths); x all codec/level pairs at 3 layouts; all layouts x every codec at small n; deep and dense families x every codec) is written by the real Writer, opened, and scanned forward (move_on_next) and backward (move_on_prev) from fresh cursors against the inserted vector, with Reader::len and compression_type checked; states = files, transitions = scans; distinct_nontrivial = files in which some level has >= 2 blocks (more blocks than index_levels + 2)"));
+    rep.set("rule", json!("E2: every file of the population (all entry-shape sequences up to n x the full 252-layout grid (9 block sizes x 4 intervals x 7 index depths); x one level per codec at 3 layouts, every documented codec level at one layout for sequences up to length 3, and levels outside the documented ranges on a few files; all layouts x every codec at small n; deep and dense families x every codec; exact-fit, framing-boundary and 0xFF/0x00-byte families; the group sizes are in `bound`) is written by the real Writer, opened, and scanned forward (move_on_next) and backward (move_on_prev) from fresh cursors against the inserted vector, with Reader::len and compression_type checked; states = files, transitions = scans; distinct_nontrivial = files in which some level has >= 2 blocks (more blocks than index_levels + 2)"));
     rep.set("bound", pop.describe());
     rep.assume("third-party codecs are trusted to round-trip; grenad's framing around them is what is checked");
     rep.finish()
